@@ -26,7 +26,7 @@ func VerifRun_C02c() {
 	l.project = check.VpProject([]string{file}, [][]byte{[]byte("local x = 1\n")})
 	uri := lsp.DocumentURI("file://" + file)
 	ctx := context.Background()
-	n := verifParam("N")
+	n := verifConcretize(verifRange("openlen", 0, verifParam("N"))) // the document may be empty
 	opened := verifBytesIn("open", n, "a=1 \n\r\xc3\xa9")
 	verifAssume(lspcommon.VerifValidUTF8(opened))
 	_ = l.TextDocumentDidOpen(ctx, lsp.DidOpenTextDocumentParams{TextDocument: lsp.TextDocumentItem{URI: uri, Text: string(opened)}})
@@ -37,7 +37,8 @@ func VerifRun_C02c() {
 	}
 	// full-text replacement
 	if verifBool("full") {
-		full := verifBytesIn("full", n, "b=2 \n")
+		full := verifBytesIn("full", verifConcretize(verifRange("fulllen", 0, verifParam("N"))), "b=2 \n")
+		n = len(full)
 		_ = l.TextDocumentDidChange(ctx, lsp.DidChangeTextDocumentParams{
 			TextDocument:   lsp.VersionedTextDocumentIdentifier{TextDocumentIdentifier: lsp.TextDocumentIdentifier{URI: uri}},
 			ContentChanges: []lsp.TextDocumentContentChangeEvent{{Text: string(full)}}})
@@ -50,7 +51,7 @@ func VerifRun_C02c() {
 	// one incremental edit
 	sl, sc := uint32(verifRange("sl", 0, n)), uint32(verifRange("sc", 0, n+1))
 	el, ec := uint32(verifRange("el", 0, n)), uint32(verifRange("ec", 0, n+1))
-	text := verifBytesIn("text", 1, "z\n")
+	text := verifBytesIn("text", verifConcretize(verifRange("textlen", 0, 1)), "z\n") // empty text = deletion
 	want, ok, class := lspcommon.VerifRefApply(client, sl, sc, el, ec, text)
 	verifAssume(ok) // conformant client
 	verifReach("edit")
@@ -62,6 +63,18 @@ func VerifRun_C02c() {
 	got, found = l.fileCache.GetFileContent(file)
 	if !found || string(got) != string(want) {
 		verifViolation(class, "after an incremental didChange the cached text differs from the client's text (a rejected edit leaves stale text)")
+	}
+	// a second edit on the result (which may now be empty): insert one byte at the very beginning
+	client = want
+	want2 := append([]byte("q"), client...)
+	_ = l.TextDocumentDidChange(ctx, lsp.DidChangeTextDocumentParams{
+		TextDocument: lsp.VersionedTextDocumentIdentifier{TextDocumentIdentifier: lsp.TextDocumentIdentifier{URI: uri}},
+		ContentChanges: []lsp.TextDocumentContentChangeEvent{{
+			Range: &lsp.Range{Start: lsp.Position{Line: 0, Character: 0}, End: lsp.Position{Line: 0, Character: 0}},
+			Text:  "q"}}})
+	got, found = l.fileCache.GetFileContent(file)
+	if class == "" && (!found || string(got) != string(want2)) {
+		verifViolation("", "after a second incremental didChange the cached text differs from the client's text")
 	}
 	_ = l.TextDocumentDidClose(ctx, lsp.DidCloseTextDocumentParams{TextDocument: lsp.TextDocumentIdentifier{URI: uri}})
 	verifReach("closed")
